@@ -14,3 +14,5 @@ for m in harness_http harness_chi harness_gin harness_echo harness_fiber; do
   (cd $m && go build ./... ) || exit 1
 done
 echo "web harness modules ok"
+# the VM's own regression harnesses (models that were wrong once); a failure means: do not trust the engine
+./bin/gosym selftest
